@@ -54,6 +54,11 @@ func genDeliveryScript(r *rand.Rand, kind Kind, half bool, allowBig bool) *Scrip
 	} else {
 		s.Receiver = []Op{{Op: "recv"}}
 	}
+	if r.Intn(3) == 0 {
+		// ask for the headers first, as applications often do
+		s.Receiver = append([]Op{{Op: "header"}}, s.Receiver...)
+	}
+	s.MutateAfterSend = r.Intn(2) == 0
 	s.RecvAfterSend = half || r.Intn(3) == 0
 	var sends []Op
 	big = allowBig
